@@ -839,6 +839,18 @@ FORMATS = {
     "timeonly": ("%H:%M:%S", [(r_time, False, False, False)], "log"),
     "mixed-list": (["%Y-%m-%d %H:%M:%S", "%b %d %H:%M:%S"], [(r_iso, True, True, False), (r_syslog, False, True, False)], "log"),
 }
+BASE_FORMATS = list(FORMATS)        # the formats of the one-call stream
+# formats of the HISTORY stream: pairs under which the SAME stamp text is a valid but DIFFERENT date (day-first vs
+# month-first, %y%m%d vs %d%m%y, with vs without year); lines are built by gen_history, not by a renderer
+HIST_FORMATS = {
+    "h-dmy": ("%d/%m/%Y %H:%M:%S", True), "h-mdy": ("%m/%d/%Y %H:%M:%S", True),
+    "h-ymd6": ("%y%m%d %H:%M:%S", True), "h-dmy6": ("%d%m%y %H:%M:%S", True),
+    "h-bd": ("%b %d %H:%M:%S", False), "h-bdY": ("%b %d %H:%M:%S %Y", True),
+    "h-md": ("%m/%d %H:%M:%S", False), "h-dm": ("%d/%m %H:%M:%S", False),
+}
+HIST_PAIRS = [("h-dmy", "h-mdy"), ("h-ymd6", "h-dmy6"), ("h-bd", "h-bdY"), ("h-md", "h-dm")]
+for _k, (_tf, _hy) in HIST_FORMATS.items():
+    FORMATS[_k] = (_tf, [(None, _hy, True, False)], "log")
 ORACLE_FORMATS = [k for k in FORMATS if k not in ("timeonly", "mixed-list")]
 _CLS_CACHE = {}
 
@@ -904,7 +916,7 @@ def gen_threshold(rng):
 
 
 def gen_after_case(rng, fmt=None, thr=None, far=False):
-    fmt = fmt or rng.choice(list(FORMATS))
+    fmt = fmt or rng.choice(BASE_FORMATS)
     rends = FORMATS[fmt][1]
     thr = thr or gen_threshold(rng)
     n = rng.choice([0, 1, 1, 2, 3, 5, 8, 12])
@@ -985,6 +997,127 @@ def after_impl(case):
         return "TE"
     except BaseException as e:  # noqa
         return "EXC:" + type(e).__name__
+
+
+# ---- histories: the result of a get_after call must not depend on the calls made before it in the same process
+
+class FlexLog(LogFileOutput):
+    """one class for every format: `time_format` is set on the INSTANCE before the call"""
+
+
+class SwitchLog(LogFileOutput):
+    """one class for every format: the CLASS attribute `time_format` is re-assigned before the call"""
+
+
+_HIST_CLS = {}
+
+
+def shaped(tf, form):
+    return tf if form == "str" else [tf] if form == "list" else {"doc": tf}
+
+
+def hist_readings(kind, rng, center):
+    """one stamp text and what it denotes under each format of the pair: name -> (y or None, month, day, yy or None), or
+    None when the text is not a stamp in that format (the field is out of the format's range, so the regular expression
+    does not match and the line is a continuation line there).  Written from the formats' definitions, no strptime."""
+    h, mi, sec = rng.choice([0, 9, 10, 23]), rng.choice([0, 30, 59]), rng.choice([0, 1, 59])
+    hms = "%02d:%02d:%02d" % (h, mi, sec)
+    if kind == "h-dmy":
+        a = rng.randint(1, 12) if rng.random() < 0.85 else rng.randint(13, 28)
+        b, y = rng.randint(1, 12), center.year + rng.choice([0, 0, 0, -1, 1])
+        return "%02d/%02d/%04d %s" % (a, b, y, hms), (h, mi, sec), {
+            "h-dmy": (y, b, a, None), "h-mdy": (y, a, b, None) if a <= 12 else None}
+    if kind == "h-ymd6":
+        p_, q, r = rng.randint(1, 28), rng.randint(1, 12), rng.randint(1, 28)
+        return "%02d%02d%02d %s" % (p_, q, r, hms), (h, mi, sec), {
+            "h-ymd6": (pivot_year(p_), q, r, p_), "h-dmy6": (pivot_year(r), q, p_, r)}
+    if kind == "h-bd":
+        t = center + datetime.timedelta(days=rng.randint(-20, 20))
+        return "%s %02d %s %04d" % (MONTHS[t.month - 1], t.day, hms, t.year), (h, mi, sec), {
+            "h-bd": (None, t.month, t.day, None, t.year), "h-bdY": (t.year, t.month, t.day, None)}
+    a = rng.randint(1, 12) if rng.random() < 0.85 else rng.randint(13, 28)
+    b = rng.randint(1, 12)
+    return "%02d/%02d %s" % (a, b, hms), (h, mi, sec), {
+        "h-md": (None, a, b, None) if a <= 12 else None, "h-dm": (None, b, a, None)}
+
+
+def gen_history(rng):
+    pair = rng.choice(HIST_PAIRS)
+    center = gen_threshold(rng).replace(microsecond=0)
+    if pair[0] == "h-ymd6":
+        center = center.replace(year=rng.randint(2001, 2028))
+    base = []
+    for _ in range(rng.randint(2, 8)):
+        if rng.random() < 0.7:
+            stamp, hms, rd = hist_readings(pair[0], rng, center)
+            base.append((rng.choice(PREFIX) + stamp + " " + rng.choice(MSG), hms, rd))
+        else:
+            base.append((rng.choice(MSG), None, None))
+    order = list(pair)
+    rng.shuffle(order)                       # each format goes first half of the time
+    ncalls = rng.randint(2, 5)
+    fmts = (order + [rng.choice(pair) for _ in range(3)])[:ncalls]
+    calls = []
+    for fmt in fmts:
+        lines_src = base if rng.random() < 0.7 else [x for x in base if rng.random() < 0.7]
+        stamped = [x for x in lines_src if x[2] and x[2].get(fmt)]
+        if stamped and rng.random() < 0.8:       # threshold at / next to a date some line denotes IN THIS FORMAT
+            _, hms, rd = rng.choice(stamped)
+            r = rd[fmt]
+            y = r[0] if r[0] is not None else (r[4] if len(r) > 4 else center.year)
+            thr = datetime.datetime(y, r[1], r[2], *hms) + datetime.timedelta(
+                seconds=rng.choice([0, 0, 1, -1, 86400, -86400, 3 * 86400, -3 * 86400, 40 * 86400, -40 * 86400]))
+        else:
+            thr = center + datetime.timedelta(days=rng.randint(-25, 25))
+        lines = []
+        for text, hms, rd in lines_src:
+            r = rd.get(fmt) if rd else None
+            if r is None:
+                lines.append({"text": text, "t": None})
+                continue
+            # a yearless stamp denotes a date of the log's own year when the text carries one, else of the threshold's year
+            y = r[0] if r[0] is not None else (r[4] if len(r) > 4 else thr.year)
+            lines.append({"text": text, "t": [y, r[1], r[2], hms[0], hms[1], hms[2], 0], "hy": r[0] is not None, "hd": True, "yy": r[3]})
+        calls.append({"op": "after", "fmt": fmt, "form": rng.choice(["str", "str", "list", "dict"]),
+                      "mode": rng.choice(["sub", "sub", "flex", "switch"]), "reuse": rng.random() < 0.3,
+                      "thr": [thr.year, thr.month, thr.day, thr.hour, thr.minute, thr.second, 0],
+                      "s": rng.choice([None, None, None, None, "error", ["e"], ""]), "lines": lines})
+    return {"op": "afterseq", "pair": list(pair), "calls": calls}
+
+
+def history_impl(case):
+    """the calls of one history, in order, in this process; instances are reused where the call says so"""
+    outs, live = [], {}
+    for c in case["calls"]:
+        tf = shaped(HIST_FORMATS[c["fmt"]][0], c["form"])
+        texts = [l["text"] for l in c["lines"]]
+        key = (c["mode"], c["fmt"], c["form"], tuple(texts))
+        try:
+            obj = live.get(key) if c["reuse"] else None
+            if obj is None:
+                if c["mode"] == "sub":
+                    k = (c["fmt"], c["form"])
+                    if k not in _HIST_CLS:
+                        _HIST_CLS[k] = type("Hist_%s_%s" % (c["fmt"][2:], c["form"]), (LogFileOutput,), {"time_format": tf})
+                    obj = _HIST_CLS[k](context_wrap(texts))
+                elif c["mode"] == "flex":
+                    obj = FlexLog(context_wrap(texts))
+                    obj.time_format = tf
+                else:
+                    SwitchLog.time_format = tf
+                    obj = SwitchLog(context_wrap(texts))
+                live[key] = obj
+            elif c["mode"] == "switch":
+                SwitchLog.time_format = tf
+            s = c["s"]
+            outs.append([d["raw_message"] for d in obj.get_after(datetime.datetime(*c["thr"]), list(s) if isinstance(s, list) else s)])
+        except (ValueError, UnboundLocalError):
+            outs.append("VE")
+        except TypeError:
+            outs.append("TE")
+        except BaseException as e:  # noqa
+            outs.append("EXC:" + type(e).__name__)
+    return outs
 
 
 def tod(t):
@@ -1099,6 +1232,17 @@ def eval_case(case):
         out = after_impl(case)
         ci = out if isinstance(out, str) else "OK\t" + "\t".join(fields_list(out))
         return out, [ci], [after_line(case)], after_oracle(case, out)
+    if op == "afterseq":
+        outs = history_impl(case)
+        canon_outs, lines, verdict = [], [], (None, None)
+        for i, (c, out) in enumerate(zip(case["calls"], outs)):
+            canon_outs.append(out if isinstance(out, str) else "OK\t" + "\t".join(fields_list(out)))
+            lines.append(after_line(c))           # the model is a function of THIS call's arguments only
+            desc, fid = after_oracle(c, out)
+            if desc and verdict[0] is None:
+                verdict = ("call %d of %d (%s, after %s): %s" % (i + 1, len(outs), c["fmt"],
+                                                                  [x["fmt"] for x in case["calls"][:i]] or "nothing", desc), fid)
+        return outs, canon_outs, lines, verdict
     raise ValueError("unknown op %r" % op)
 
 
@@ -1267,6 +1411,23 @@ def run(chk):
         chk.case(("get", json.dumps(c, sort_keys=True)), bool(c["lines"]))
     run_stream(chk, "get", cases, get_tag)
     chk.sample(cases[5])
+
+    # ---- 6b. histories of get_after calls (before the one-call stream: a failure that depends on earlier calls is
+    # then reported with a replay that contains the calls): ambiguous format pairs on logs that share stamp texts
+    def hist_tag(case, outs):
+        tags = ["history:pair=%s,first=%s" % (case["pair"][0][2:], case["calls"][0]["fmt"][2:]), "history:calls=%d" % len(outs)]
+        for c, o in zip(case["calls"], outs):
+            tags.append("history:call:%s/%s/%s%s" % (c["fmt"][2:], c["form"], c["mode"], "/reused" if c["reuse"] else ""))
+            tags.append("history:result=%s,oracle=%s" % (o if isinstance(o, str) else "n%d" % min(len(o), 3),
+                                                         "applied" if after_oracle_applicable(c) else "n/a"))
+        both = [l for l in case["calls"][0]["lines"] if l["t"]]
+        tags.append("history:stamped-lines-in-first-call=%d" % min(len(both), 4))
+        return tags
+    cases = [gen_history(rng) for _ in range(600 * mult)]
+    for c in cases:
+        chk.case(("afterseq", json.dumps(c, sort_keys=True)), len(set(x["fmt"] for x in c["calls"])) > 1)
+    run_stream(chk, "get_after-history", cases, hist_tag)
+    chk.sample({"history": [(c["fmt"], c["form"], c["mode"], c["thr"], [l["text"] for l in c["lines"]]) for c in cases[0]["calls"]]})
 
     # ---- 7. get_after
     def after_tag(case, out):
